@@ -7,6 +7,7 @@
 -/
 import Ctrmml.Model.MdsConv
 import Ctrmml.Spec.Timeline
+import Ctrmml.Proofs.CodecLoops
 namespace Ctrmml.C02
 open Ctrmml Ctrmml.Mds Ctrmml.Seq Tables
 
@@ -42,5 +43,114 @@ theorem C02_stream_ends_with_finish_partial (nS nM : Nat) (es : List MEv) (e : E
   rfl
 
 example : ∃ e', encEv 0 0 {} ⟨mds_FINISH, 0⟩ = .ok e' := ⟨_, rfl⟩
+
+end Ctrmml.C02
+
+/-! ## The codec round trip (second layer)
+
+`convert_track` (model `Mds.convertTrack`) followed by the MDSDRV sequence rules (`Seq.run`) gives
+back the tick string of the event list.  Definitions used in the statements (Proofs/CodecLinear,
+Proofs/CodecLoops): `Codec.linEv` — the linear fragment (REST / TIE / NOTE `81..df` with length
+1..65535, SLR, the one- and two-argument commands incl. INS/PCM/PEG/MTAB; `FLG` only with an
+argument that leaves drum mode off; not `DMFINISH`); `Codec.evTicks`/`Codec.ticks` — rest n ↦
+n × off, note ↦ on (ty − NOTE) then (n − 1) × hold, tie ↦ n × hold, command ↦ `cmd op operand`
+with the operand cut to the width that is written (`Codec.cmdArg`); `Codec.Node`/`flatL`/`expL` —
+bracket structure of counted loops, its event list and its expansion.  The interpreter starts at
+pc 0 with empty stacks and ARBITRARY contents of the two remembered-length registers. -/
+namespace Ctrmml.C02
+open Ctrmml Ctrmml.Mds Ctrmml.Seq Ctrmml.Codec Tables
+
+/-- **Linear fragment, all durations 1..65535, all adjacencies.**  The converter accepts, and the
+interpreter plays exactly the tick string of the events and stops with `finished` (for every tick
+limit that is not smaller than the string and every sufficiently large fuel). -/
+theorem C02_codec_roundtrip_linear (nS nM : Nat) (es : List MEv) (hv : ∀ ev ∈ es, linEv ev = true) (farg : Nat) :
+    ∃ bytes, convertTrack nS nM (es ++ [⟨mds_FINISH, farg⟩]) = .ok bytes ∧
+      ∀ (base mj maxTicks : Nat) (ln lr : Option Nat), (ticks nS nM es).length ≤ maxTicks →
+        ∃ n, ∀ fuel, fuel > n →
+          run bytes base mj maxTicks fuel { pc := 0, lastNote := ln, lastRest := lr } =
+            (ticks nS nM es, .finished) := by
+  obtain ⟨bytes, h1, h2⟩ := codec_roundtrip_linear nS nM es hv farg
+  exact ⟨bytes, h1, fun base mj maxTicks ln lr hlen => (h2 base mj ln lr).run_eq maxTicks hlen⟩
+
+/-- **Loop point and loop-back jump** (`a ++ [SEGNO] ++ b ++ [JUMP]`, `a`, `b` linear; the shape of
+defect D4).  With the jump followed `mj` times the interpreter plays `a`, then `b` `mj + 1` times
+with a loop mark after each of the first `mj`.  Hypothesis: the stream is shorter than 64 KiB
+(the jump offset is 16 bit). -/
+theorem C02_codec_roundtrip_segno (nS nM : Nat) (a b : List MEv) (ha : ∀ ev ∈ a, linEv ev = true)
+    (hb : ∀ ev ∈ b, linEv ev = true) (jarg : Nat) :
+    ∃ bytes, convertTrack nS nM (a ++ [⟨mds_SEGNO, 0⟩] ++ b ++ [⟨mds_JUMP, jarg⟩]) = .ok bytes ∧
+      (bytes.length < 65536 → ∀ (base mj maxTicks : Nat) (ln lr : Option Nat),
+        (ticks nS nM a ++ repeatL mj (ticks nS nM b ++ [Tk.loopMark]) ++ ticks nS nM b).length ≤ maxTicks →
+        ∃ n, ∀ fuel, fuel > n →
+          run bytes base mj maxTicks fuel { pc := 0, lastNote := ln, lastRest := lr } =
+            (ticks nS nM a ++ repeatL mj (ticks nS nM b ++ [Tk.loopMark]) ++ ticks nS nM b, .finished)) := by
+  obtain ⟨bytes, h1, h2⟩ := codec_roundtrip_segno nS nM a b ha hb jarg
+  exact ⟨bytes, h1, fun hl base mj maxTicks ln lr hlen => (h2 hl base mj ln lr).run_eq maxTicks hlen⟩
+
+/-- the statement of the task for `maxJumps = 1`: ticks(a) ++ ticks(b) ++ [loopMark] ++ ticks(b) -/
+theorem C02_codec_roundtrip_segno_once (nS nM : Nat) (a b : List MEv) (ha : ∀ ev ∈ a, linEv ev = true)
+    (hb : ∀ ev ∈ b, linEv ev = true) (jarg : Nat) :
+    ∃ bytes, convertTrack nS nM (a ++ [⟨mds_SEGNO, 0⟩] ++ b ++ [⟨mds_JUMP, jarg⟩]) = .ok bytes ∧
+      (bytes.length < 65536 → ∀ (base maxTicks : Nat) (ln lr : Option Nat),
+        (ticks nS nM a ++ ticks nS nM b ++ [Tk.loopMark] ++ ticks nS nM b).length ≤ maxTicks →
+        ∃ n, ∀ fuel, fuel > n →
+          run bytes base 1 maxTicks fuel { pc := 0, lastNote := ln, lastRest := lr } =
+            (ticks nS nM a ++ ticks nS nM b ++ [Tk.loopMark] ++ ticks nS nM b, .finished)) := by
+  obtain ⟨bytes, h1, h2⟩ := C02_codec_roundtrip_segno nS nM a b ha hb jarg
+  refine ⟨bytes, h1, fun hl base maxTicks ln lr hlen => ?_⟩
+  have := h2 hl base 1 maxTicks ln lr (by simpa [repeatL, List.append_assoc] using hlen)
+  simpa [repeatL, List.append_assoc] using this
+
+/-- **Counted loops without break, nested to any depth** (restriction: no `LPB` in the track;
+leaves in the linear fragment; terminated by `FINISH`).  The interpreter plays the loop expansion:
+each body `passes n` times (`n mod 256` times, once if that is `≤ 1`). -/
+theorem C02_codec_roundtrip_loops_nobreak_partial (nS nM : Nat) (ts : List Node) (hl : linL ts = true)
+    (hn : noBreakL ts = true) (farg : Nat) :
+    ∃ bytes, convertTrack nS nM (flatL ts ++ [⟨mds_FINISH, farg⟩]) = .ok bytes ∧
+      ∀ (base mj maxTicks : Nat) (ln lr : Option Nat), (expL nS nM ts).length ≤ maxTicks →
+        ∃ n, ∀ fuel, fuel > n →
+          run bytes base mj maxTicks fuel { pc := 0, lastNote := ln, lastRest := lr } =
+            (expL nS nM ts, .finished) := by
+  obtain ⟨bytes, h1, h2⟩ := codec_roundtrip_loops_nobreak nS nM ts hl hn farg
+  exact ⟨bytes, h1, fun base mj maxTicks ln lr hlen => (h2 base mj ln lr).run_eq maxTicks hlen⟩
+
+/-- The statement for counted loops WITH break (`LP … LPB … LPF n`, nested): same as above without
+the `noBreakL` hypothesis, for streams shorter than 64 KiB. -/
+def C02_codec_roundtrip_loops_statement : Prop :=
+  ∀ (nS nM : Nat) (ts : List Node) (_ : linL ts = true) (farg : Nat),
+    ∃ bytes, convertTrack nS nM (flatL ts ++ [⟨mds_FINISH, farg⟩]) = .ok bytes ∧
+      (bytes.length < 65536 →
+        ∀ (base mj maxTicks : Nat) (ln lr : Option Nat), (expL nS nM ts).length ≤ maxTicks →
+          ∃ n, ∀ fuel, fuel > n →
+            run bytes base mj maxTicks fuel { pc := 0, lastNote := ln, lastRest := lr } =
+              (expL nS nM ts, .finished))
+
+/-! ### non-vacuity -/
+
+/-- the D4 shape `note, note (same length), SEGNO, rest, note, JUMP` -/
+def exD4a : List MEv := [⟨0xa6, 24⟩, ⟨0xa6, 24⟩]
+def exD4b : List MEv := [⟨mds_REST, 48⟩, ⟨0xa8, 24⟩]
+
+example : (∀ ev ∈ exD4a, linEv ev = true) ∧ (∀ ev ∈ exD4b, linEv ev = true) := by decide
+/-- the length-less second note gets its length byte `17` at the loop point (D4 fixed) -/
+example : convertTrack 0 0 (exD4a ++ [⟨mds_SEGNO, 0⟩] ++ exD4b ++ [⟨mds_JUMP, 0⟩]) =
+    .ok [0xa6, 0x17, 0xa6, 0x17, 0x2f, 0xa8, 0x17, 0xf5, 0xff, 0xfa] := rfl
+example : (ticks 0 0 exD4a ++ ticks 0 0 exD4b ++ [Tk.loopMark] ++ ticks 0 0 exD4b).length = 193 := by decide +kernel
+
+/-- a 300-tick note followed by a 130-tick rest: both are split at 128 ticks -/
+def exLong : List MEv := [⟨0xa6, 300⟩, ⟨mds_REST, 130⟩]
+example : ∀ ev ∈ exLong, linEv ev = true := by decide
+example : convertTrack 0 0 (exLong ++ [⟨mds_FINISH, 0⟩]) = .ok [0xa6, 0x7f, 0x81, 0x81, 0x2b, 0x7f, 0x01, 0xff] := rfl
+example : (ticks 0 0 exLong).length = 430 := by decide +kernel
+example : (ticks 0 0 [⟨0xa6, 3⟩, ⟨mds_TIE, 2⟩, ⟨mds_REST, 2⟩, ⟨mds_VOL, 300⟩, ⟨mds_FMREG, 0x12345⟩, ⟨mds_INS, 3⟩]) =
+    [.on 36, .hold, .hold, .hold, .hold, .off, .off, .cmd mds_VOL 44, .cmd mds_FMREG 0x2345, .cmd mds_INS 3] := by
+  decide
+
+/-- nested loops: `c [ c [ r ]2 ]3` -/
+def exLoops : List Node := [.ev ⟨0xa6, 24⟩, .loop [.ev ⟨0xa6, 24⟩, .loop [.ev ⟨mds_REST, 12⟩] 2] 3]
+example : linL exLoops = true ∧ noBreakL exLoops = true := by decide
+example : convertTrack 0 0 (flatL exLoops ++ [⟨mds_FINISH, 0⟩]) =
+    .ok [0xa6, 0x17, 0xfa, 0xa6, 0x17, 0xfa, 0x0b, 0xfb, 2, 0xfb, 3, 0xff] := rfl
+example : (expL 0 0 exLoops).length = 24 + 3 * (24 + 2 * 12) := by decide +kernel
 
 end Ctrmml.C02
